@@ -106,3 +106,43 @@
         for f in failures.iter().take(8) { println!("FAILING INPUT: {}", f); }
         assert!(failures.is_empty());
     }
+
+    /// C04, exact-surface lookup through the public MorphemeList::lookup with a user dictionary layered over the system one:
+    /// exactly the indexed rows whose key equals the query, with their dictionary and word numbers
+    #[test]
+    fn verif_oracle_exact_lookup_layered() {
+        if !want("C04") { return; }
+        let mut cfgb = ConfigTestSupport::new();
+        let mut dic = DictBuilder::new_system();
+        dic.read_conn(super::super::MATRIX_10_10).unwrap();
+        dic.read_lexicon(SYSTEM_LEX).unwrap();
+        dic.resolve().unwrap();
+        dic.compile(&mut cfgb.make_system()).unwrap();
+        let sys = JapaneseDictionary::from_cfg(&cfgb.config()).unwrap();
+        let mut ud = DictBuilder::new_user(&sys);
+        ud.read_lexicon(USER1_LEX).unwrap();
+        ud.resolve().unwrap();
+        ud.compile(&mut cfgb.add_user()).unwrap();
+        let jd = JapaneseDictionary::from_cfg(&cfgb.config()).unwrap();
+        let rows = |bytes: &[u8]| -> Vec<(String, i32)> {
+            std::str::from_utf8(bytes).unwrap().lines().filter(|l| !l.trim().is_empty()).map(|l| { let c: Vec<&str> = l.split(',').collect(); (c[0].to_string(), c[1].parse::<i32>().unwrap()) }).collect()
+        };
+        let layers = [rows(SYSTEM_LEX), rows(USER1_LEX)];
+        let mut queries: Vec<String> = layers.iter().flat_map(|l| l.iter().map(|r| r.0.clone())).collect();
+        queries.extend(["東京都に", "京", "アイアイ", "特", "x"].iter().map(|s| s.to_string()));
+        let mut failures = Vec::new();
+        for q in queries.iter() {
+            if q.contains('\\') || q.is_empty() { continue; }
+            let mut ms = MorphemeList::empty(&jd);
+            let n = match ms.lookup(q, InfoSubset::all()) { Ok(n) => n, Err(e) => { failures.push(format!("exact lookup of {:?} fails: {:?}", q, e)); continue; } };
+            let mut got: Vec<(u8, u32)> = ms.iter().map(|m| (m.word_id().dic(), m.word_id().word())).collect();
+            got.sort();
+            let mut want_ids: Vec<(u8, u32)> = Vec::new();
+            for (d, l) in layers.iter().enumerate() { for (i, r) in l.iter().enumerate() { if r.0 == *q && r.1 >= 0 { want_ids.push((d as u8, i as u32)); } } }
+            want_ids.sort();
+            if got != want_ids || n != want_ids.len() { failures.push(format!("exact lookup of {:?} returned (dictionary, word) {:?}, the rows with that key are {:?}", q, got, want_ids)); }
+        }
+        println!("verif_oracle_exact_lookup_layered: {} queries, {} failures", queries.len(), failures.len());
+        for f in failures.iter().take(5) { println!("FAILING INPUT: {}", f); }
+        assert!(failures.is_empty());
+    }
